@@ -108,23 +108,80 @@ func classify(srv *ogServer, ps *plannedSet, q *query, kind string, got, want *r
 			return "no-answer"
 		}
 	}
+	// single defect models first, then their combination (class = the first one of the set)
+	var applicable []rewriter
 	for _, rw := range rewriters {
-		e2, ok := rw.apply(q.e)
-		if !ok {
-			continue
+		if _, ok := rw.apply(q.e); ok {
+			applicable = append(applicable, rw)
+		}
+	}
+	explains := func(rws []rewriter) bool {
+		e2 := q.e
+		for _, rw := range rws {
+			if e3, ok := rw.apply(e2); ok {
+				e2 = e3
+			}
 		}
 		q2 := *q
 		q2.e = e2
 		q2.text = e2.text()
 		pred := ps.up.query(&q2)
-		if k, _ := diffResults(got, &pred); k == "" {
+		k, _ := diffResults(got, &pred)
+		return k == ""
+	}
+	for _, rw := range applicable {
+		if explains([]rewriter{rw}) {
 			return rw.class
 		}
+	}
+	if len(applicable) > 1 && explains(applicable) {
+		return applicable[0].class
 	}
 	return "unexplained:" + kind
 }
 
-var rewriters []rewriter
+// The defect models of the findings that could not be repaired in /repo (golden tests of
+// promql2influxql assert the generated InfluxQL text).
+var rewriters = []rewriter{
+	{
+		// selector.go GetTagCondition drops a matcher whose value is empty
+		class: "matcher-empty-value-ignored",
+		apply: func(e expr) (expr, bool) {
+			return mapSelectors(e, func(s *selector) bool {
+				changed := false
+				kept := s.matchers[:1:1]
+				for _, m := range s.matchers[1:] {
+					if m.re == nil && m.lit == "" {
+						changed = true
+						continue
+					}
+					kept = append(kept, m)
+				}
+				s.matchers = kept
+				return changed
+			})
+		},
+	},
+	{
+		// selector.go compiles a regex matcher unanchored; the index treats a regex without
+		// metacharacters as a substring test
+		class: "matcher-regex-unanchored",
+		apply: func(e expr) (expr, bool) {
+			return mapSelectors(e, func(s *selector) bool {
+				changed := false
+				for i := range s.matchers {
+					m := &s.matchers[i]
+					if m.re != nil {
+						dot := func() *rx { return &rx{kind: "star", a: &rx{kind: "any"}} }
+						m.re = &rx{kind: "cat", a: dot(), b: &rx{kind: "cat", a: m.re, b: dot()}}
+						changed = true
+					}
+				}
+				return changed
+			})
+		},
+	},
+}
 
 // features of a case for the input histogram (what the case exercises).
 func features(q *query, set *sampleSet, want *result) []string {
